@@ -1479,6 +1479,100 @@ fn check_exec_script(sc: &Script, ctx: &mut CaseCtx<'_>) -> Result<(), String> {
     Ok(())
 }
 
+// ---------------------------------------------------------------------------------------
+// long transaction bodies (scale): every queued command is executed, in order, exactly once
+// ---------------------------------------------------------------------------------------
+
+#[derive(Clone, Debug, Hash, Serialize, Deserialize)]
+struct LongBody {
+    /// number of commands between MULTI and EXEC
+    n: u32,
+    shards: u8,
+}
+
+fn long_bodies(thorough: bool) -> Vec<LongBody> {
+    let mut ns: Vec<u32> = vec![255, 256, 257, 1_000, 4_095, 4_096, 4_097, 8_191, 8_192, 8_193, 9_001, 16_385];
+    if thorough {
+        ns.extend([65_535, 65_536, 65_537, 100_001]);
+    }
+    let mut v = Vec::new();
+    for n in ns {
+        for shards in [1u8, 4] {
+            v.push(LongBody { n, shards });
+        }
+    }
+    v
+}
+
+/// MULTI, n commands (INCR c / RPUSH l <i> / SET s <i> in turn), EXEC through the connection
+/// handler: every command is answered QUEUED, EXEC returns exactly n results - the i-th being
+/// what the i-th command answers when the body runs consecutively - and the keys hold the result.
+fn check_long_body(c: &LongBody, ctx: &mut CaseCtx<'_>) -> Result<(), String> {
+    let n = c.n as usize;
+    vcore::block_on(async {
+        let state = ShardedActorState::with_shards(c.shards as usize);
+        let mut a = Client::connect("A", &state);
+        let r = a.call(&argv(&["MULTI"])).await?;
+        if r != Reply::ok() {
+            return Err(format!("MULTI answered {}", r.show()));
+        }
+        for i in 0..n {
+            let cmd = match i % 3 {
+                0 => argv(&["INCR", "long:c"]),
+                1 => vec![b("RPUSH"), b("long:l"), i.to_string().into_bytes()],
+                _ => vec![b("SET"), b("long:s"), i.to_string().into_bytes()],
+            };
+            let r = a.call(&cmd).await?;
+            if r != Reply::Simple(b"QUEUED".to_vec()) {
+                return Err(format!(
+                    "command #{} of a MULTI body of {} ({}) was answered {} instead of +QUEUED",
+                    i + 1, n, show_argv(&cmd), r.show()
+                ));
+            }
+        }
+        let r = a.call(&argv(&["EXEC"])).await?;
+        let items = match &r {
+            Reply::Array(v) => v,
+            other => return Err(format!("EXEC after {} queued commands answered {}", n, other.show())),
+        };
+        if items.len() != n {
+            return Err(format!(
+                "EXEC after {} commands that were each answered +QUEUED returned {} results: queued commands were dropped or run twice",
+                n, items.len()
+            ));
+        }
+        let (mut incrs, mut pushes) = (0i64, 0i64);
+        for (i, it) in items.iter().enumerate() {
+            let want = match i % 3 {
+                0 => {
+                    incrs += 1;
+                    Reply::Int(incrs)
+                }
+                1 => {
+                    pushes += 1;
+                    Reply::Int(pushes)
+                }
+                _ => Reply::ok(),
+            };
+            if *it != want {
+                return Err(format!("EXEC result #{} of {} is {}, consecutive execution gives {}", i + 1, n, it.show(), want.show()));
+            }
+        }
+        let c_now = direct(&state, argv(&["GET", "long:c"])).await;
+        let l_now = direct(&state, argv(&["LLEN", "long:l"])).await;
+        if c_now != Reply::Bulk(incrs.to_string().into_bytes()) || l_now != Reply::Int(pushes) {
+            return Err(format!(
+                "after EXEC of {} commands the counter is {} (want {}) and the list has {} elements (want {})",
+                n, c_now.show(), incrs, l_now.show(), pushes
+            ));
+        }
+        Ok(())
+    })?;
+    ctx.label(if c.n > 8192 { "long_body:>8192" } else { "long_body:<=8192" });
+    ctx.nontrivial(c);
+    Ok(())
+}
+
 fn main() {
     let args = vcore::parse_args();
     let s = Session::new(
@@ -1587,6 +1681,11 @@ fn main() {
     s.run_cases("conn_level_scripts", s.scale(2_000, 30_000), || script(true), check_conn_script);
     s.describe_check("exec_scripts", "executor-level MULTI/EXEC/WATCH on one CommandExecutor; twin executor for the sequential run");
     s.run_cases("exec_scripts", s.scale(40_000, 1_000_000), || script(false), check_exec_script);
+    s.describe_check(
+        "long_bodies",
+        "enumerated transaction lengths (255..16385 commands on and around powers of two, thorough up to 100001; 1 and 4 shards) through the connection handler: every command answered +QUEUED, EXEC returns exactly n results equal to consecutive execution, final state matches",
+    );
+    s.run_enumerated("long_bodies", long_bodies(s.thorough()).into_iter(), check_long_body);
     s.finish();
 }
 
